@@ -276,3 +276,165 @@ pub proof fn lemma_sleb_step_10th(o: RView, c: RView, c2: RView, acc: nat, byte:
         assert((acc + 127 * w) - 128 * w == acc - w) by (nonlinear_arith);
     }
 }
+
+// ---- encoders (`leb128::write::Leb128::{unsigned, signed}`): closed form of the decoding specs on a byte string whose
+// first n-1 bytes carry the continuation bit and whose n-th byte does not
+/// sum of the first n 7-bit groups, little end first
+pub open spec fn usum(s: Seq<u8>, n: nat) -> nat
+    decreases n
+{
+    if n == 0 { 0 } else { usum(s, (n - 1) as nat) + (s[n - 1] & 0x7f) as nat * pow2((7 * (n - 1)) as nat) }
+}
+
+pub open spec fn all_cont(s: Seq<u8>, n: nat) -> bool {
+    forall|i: int| 0 <= i < n ==> (#[trigger] s[i]) & 0x80 != 0
+}
+
+pub open spec fn lview(s: Seq<u8>, j: nat, n: nat) -> RView {
+    RView { root: s, start: j, len: (n - j) as nat, be: false }
+}
+
+pub proof fn lemma_usum_ext(s: Seq<u8>, t: Seq<u8>, n: nat)
+    requires forall|i: int| 0 <= i < n ==> s[i] == t[i],
+    ensures usum(s, n) == usum(t, n),
+    decreases n
+{
+    if n > 0 {
+        lemma_usum_ext(s, t, (n - 1) as nat);
+    }
+}
+
+pub proof fn lemma_uleb_prefix(s: Seq<u8>, n: nat, j: nat)
+    requires j < n, all_cont(s, j),
+    ensures uleb_inv(lview(s, 0, n), lview(s, j, n), j, usum(s, j)), sleb_inv(lview(s, 0, n), lview(s, j, n), j, usum(s, j)),
+    decreases j
+{
+    let o = lview(s, 0, n);
+    if j == 0 {
+        lemma_leb_init(o);
+    } else {
+        let i = (j - 1) as nat;
+        lemma_uleb_prefix(s, n, i);
+        assert(s[i as int] & 0x80 != 0);
+        lemma_uleb_step(o, lview(s, i, n), lview(s, j, n), i, usum(s, i), s[i as int]);
+        lemma_sleb_step(o, lview(s, i, n), lview(s, j, n), i, usum(s, i), s[i as int]);
+    }
+}
+
+/// decoding specs of a well-formed n-byte encoding, in closed form
+pub proof fn lemma_leb_encoded(s: Seq<u8>, n: nat)
+    requires 1 <= n, all_cont(s, (n - 1) as nat), s[n - 1] & 0x80 == 0,
+    ensures
+        leb_len_in(s, 0, n as int) == n,
+        uleb_in(s, 0, n as int) == usum(s, n),
+        sleb_in(s, 0, n as int) == usum(s, n) - (if s[n - 1] & 0x40 != 0 { pow2(7 * n) } else { 0 }),
+{
+    let j = (n - 1) as nat;
+    let o = lview(s, 0, n);
+    lemma_uleb_prefix(s, n, j);
+    lemma_uleb_step(o, lview(s, j, n), lview(s, n, n), j, usum(s, j), s[j as int]);
+    lemma_sleb_step(o, lview(s, j, n), lview(s, n, n), j, usum(s, j), s[j as int]);
+}
+
+/// the decoding specs look only at the bytes of the number: a window whose bytes from position d+j on agree with
+/// s[j..n) (a terminated LEB128) decodes like s
+pub proof fn lemma_leb_transfer(s: Seq<u8>, j: int, n: int, root: Seq<u8>, d: int, e: int)
+    requires 0 <= j, d + n <= e, leb_len_in(s, j, n) <= n - j, forall|i: int| j <= i < n ==> root[d + i] == s[i],
+    ensures
+        leb_len_in(root, d + j, e) == leb_len_in(s, j, n),
+        uleb_in(root, d + j, e) == uleb_in(s, j, n),
+        sleb_in(root, d + j, e) == sleb_in(s, j, n),
+    decreases n - j
+{
+    if j < n {
+        assert(root[d + j] == s[j]);
+        if s[j] & 0x80 != 0 {
+            lemma_leb_transfer(s, j + 1, n, root, d, e);
+        }
+    }
+}
+
+/// decode o encode == id, spec level.  If the next bytes of a reader view `o` are an encoder output `s` (n bytes, terminated
+/// exactly at n, value v as established by the encoder contracts [C09:leb-roundtrip]) then the decoder specs at `o` are (v, n);
+/// by [C09:uleb-value]/[C09:uleb-frontier] (resp. sleb) `leb128::read::unsigned` then returns Ok(v) and advances by exactly n.
+pub proof fn lemma_roundtrip(o: RView, s: Seq<u8>, n: nat)
+    requires n <= o.len, leb_len_in(s, 0, n as int) == n, forall|i: int| 0 <= i < n ==> o.at(i) == s[i],
+    ensures o.leb_ok(0), o.leb_len(0) == n, o.uleb(0) == uleb_in(s, 0, n as int), o.sleb(0) == sleb_in(s, 0, n as int),
+{
+    lemma_leb_transfer(s, 0, n as int, o.root, o.start as int, o.end() as int);
+}
+
+// machine arithmetic of the encoder loops
+pub proof fn lemma_enc_step_u64(v: u64)
+    ensures v as nat == (v & 0x7f) as nat + 128 * ((v >> 7u64) as nat), (v & 0x7f) < 128,
+{
+    assert(v == (v & 0x7f) + 128 * (v >> 7u64) && (v & 0x7f) < 128) by (bit_vector);
+}
+
+pub proof fn lemma_enc_step_i64(v: i64)
+    ensures
+        v as int == ((v as u8) & 0x7f) as int + 128 * ((v >> 7u64) as int),
+        (v >> 6u64) >> 1u64 == v >> 7u64,
+        ((v >> 6u64) == 0 || (v >> 6u64) == -1) <==> -64 <= v < 64,
+        -64 <= v < 0 ==> ((v as u8) & 0x7f) & 0x40 != 0 && ((v as u8) & 0x7f) as int == v + 128,
+        0 <= v < 64 ==> ((v as u8) & 0x7f) & 0x40 == 0 && ((v as u8) & 0x7f) as int == v,
+        -64 <= v < 0 ==> v >> 7u64 == -1,
+        0 <= v < 64 ==> v >> 7u64 == 0,
+{
+    assert(-64 <= v < 0 ==> v >> 7u64 == -1) by (bit_vector);
+    assert(0 <= v < 64 ==> v >> 7u64 == 0) by (bit_vector);
+    assert(v == (((v as u8) & 0x7f) as i64) + 128 * (v >> 7u64)) by (bit_vector);
+    assert((v >> 6u64) >> 1u64 == v >> 7u64) by (bit_vector);
+    assert(((v >> 6u64) == 0 || (v >> 6u64) == -1) <==> -64 <= v < 64) by (bit_vector);
+    assert(-64 <= v < 0 ==> ((v as u8) & 0x7f) & 0x40 != 0 && (((v as u8) & 0x7f) as i64) == v + 128) by (bit_vector);
+    assert(0 <= v < 64 ==> ((v as u8) & 0x7f) & 0x40 == 0 && (((v as u8) & 0x7f) as i64) == v) by (bit_vector);
+}
+
+/// one encoder iteration that writes `byte` (low 7 bits = low 7 bits of the remaining value `vin`) at index k
+pub proof fn lemma_enc_step(s: Seq<u8>, t: Seq<u8>, k: nat, vin: int, vout: int, byte: u8, v0: int)
+    requires
+        k < s.len(), t == s.update(k as int, byte), all_cont(s, k),
+        vin == (byte & 0x7f) as int + 128 * vout,
+        usum(s, k) + vin * pow2(7 * k) == v0,
+    ensures
+        usum(t, k + 1) + vout * pow2(7 * (k + 1)) == v0,
+        usum(t, k + 1) == usum(s, k) + (byte & 0x7f) as nat * pow2(7 * k),
+        all_cont(t, k),
+        byte & 0x80 != 0 ==> all_cont(t, k + 1),
+{
+    lemma_usum_ext(s, t, k);
+    lemma_pow2_7(k);
+    let w = pow2(7 * k);
+    let low = (byte & 0x7f) as int;
+    assert(t[k as int] == byte);
+    assert((low + 128 * vout) * w == low * w + vout * (128 * w)) by (nonlinear_arith);
+    assert forall|i: int| 0 <= i < k implies (#[trigger] t[i]) & 0x80 != 0 by {
+        assert(t[i] == s[i]);
+    }
+}
+
+/// decode o encode == id over the two contracts.  Hypotheses = what `Leb128::unsigned(v)` guarantees about its output
+/// (s = seq(), n = count(): [C09:leb-roundtrip] on the encoder) + "the reader's next n bytes are s"; conclusion = the acceptance
+/// condition and the value of the decoder contract ([C09:uleb-frontier], [C09:uleb-value] on `leb128::read::unsigned`), i.e.
+/// the decoder returns Ok(v) and advances by exactly n bytes.
+pub proof fn theorem_uleb_roundtrip(o: RView, s: Seq<u8>, n: nat, v: u64)
+    requires
+        1 <= n <= 10, leb_len_in(s, 0, n as int) == n, uleb_in(s, 0, n as int) == v,
+        n <= o.len, forall|i: int| 0 <= i < n ==> o.at(i) == s[i],
+    ensures
+        o.leb_ok(0) && o.leb_len(0) <= 10 && o.uleb(0) <= u64::MAX, // [C09:leb-roundtrip]
+        o.uleb(0) == v && o.leb_len(0) == n, // [C09:leb-roundtrip]
+{
+    lemma_roundtrip(o, s, n);
+}
+
+pub proof fn theorem_sleb_roundtrip(o: RView, s: Seq<u8>, n: nat, v: i64)
+    requires
+        1 <= n <= 10, leb_len_in(s, 0, n as int) == n, sleb_in(s, 0, n as int) == v,
+        n <= o.len, forall|i: int| 0 <= i < n ==> o.at(i) == s[i],
+    ensures
+        o.leb_ok(0) && o.leb_len(0) <= 10 && i64::MIN <= o.sleb(0) <= i64::MAX, // [C09:leb-roundtrip]
+        o.sleb(0) == v && o.leb_len(0) == n, // [C09:leb-roundtrip]
+{
+    lemma_roundtrip(o, s, n);
+}
